@@ -54,6 +54,7 @@ namespace occa {
       prevToken(NULL),
       nextToken(NULL),
       beforePairToken(NULL),
+      castEndToken(NULL),
       hasError(false) {
       scopedStates.push_back(expressionScopedState());
       scopedState = &(scopedStates.back());
@@ -237,7 +238,11 @@ namespace occa {
           operatorToken &opToken = token->to<operatorToken>();
 
           if (opToken.opType() & operatorType::pairStart) {
-            state.pushPair(state.prevToken);
+            // Nothing can be called or subscripted right after
+            // a cast: (int) (x), (int) (float) x
+            state.pushPair(state.prevToken == state.castEndToken
+                           ? NULL
+                           : state.prevToken);
             state.pushOperator(&opToken);
           }
           else if (opToken.opType() & operatorType::pairEnd) {
@@ -390,6 +395,7 @@ namespace occa {
                                 op::parenCast,
                                 *(pair.value))
           );
+          state.castEndToken = &opToken;
         } else {
           state.pushOutput(
             new parenthesesNode(pair.token,
@@ -505,6 +511,10 @@ namespace occa {
 
       opType_t prevOpType = state.prevToken->getOpType();
       if (prevOpType & operatorType::pairStart) {
+        return true;
+      }
+      // (int) -x, (float) *p: a cast is a prefix operator itself
+      if (state.prevToken == state.castEndToken) {
         return true;
       }
       // A closing ), ] or } ends the operand just like the last token does:
